@@ -253,6 +253,15 @@ def gen_probes():
         out.append((f"scope_send_elementmut|{tn}", f"    let mut v: AnyVec<{tr}> = AnyVec::new::<u64>();\n    v.push(W::new(1u64));\n    let e = v.at_mut(0);\n    std::thread::scope(|s| {{ s.spawn(move || {{ let _ = e.size(); }}); }});", (True if not tsend else None)))
         out.append((f"scope_send_pop|{tn}", f"    let mut v: AnyVec<{tr}> = AnyVec::new::<u64>();\n    v.push(W::new(1u64));\n    let h = v.pop().unwrap();\n    std::thread::scope(|s| {{ s.spawn(move || {{ drop(h); }}); }});", (True if not tsend else None)))
         out.append((f"scope_send_drain|{tn}", f"    let mut v: AnyVec<{tr}> = AnyVec::new::<u64>();\n    let d = v.drain(..);\n    std::thread::scope(|s| {{ s.spawn(move || {{ drop(d); }}); }});", (True if not tsend else None)))
+    # 5. iterators handed out by the typed view (opaque `impl Iterator` types: auto traits leak through them)
+    for en, (et, es, ey, _ec) in ELEMS.items():
+        mk = f"    let mut v: AnyVec<dyn any_vec::traits::None, Heap> = AnyVec::new::<{et}>();\n    let mut t = v.downcast_mut::<{et}>().unwrap();\n"
+        out.append((f"scope_send_typed_drain|{en}", mk + "    let d = t.drain(..);\n    std::thread::scope(|s| { s.spawn(move || { drop(d); }); });", (True if not es else None)))
+        out.append((f"scope_send_typed_splice|{en}", mk + f"    let d = t.splice(.., Vec::<{et}>::new());\n    std::thread::scope(|s| {{ s.spawn(move || {{ drop(d); }}); }});", (True if not es else None)))
+        out.append((f"scope_send_typed_iter_mut|{en}", mk + "    let d = t.iter_mut();\n    std::thread::scope(|s| { s.spawn(move || { drop(d); }); });", (True if not es else None)))
+        out.append((f"scope_send_typed_iter|{en}", mk + "    let d = t.iter();\n    std::thread::scope(|s| { s.spawn(move || { drop(d); }); });", (True if not ey else None)))
+        out.append((f"scope_send_typed_slice|{en}", mk + "    let d = t.as_slice();\n    std::thread::scope(|s| { s.spawn(move || { let _ = d.len(); }); });", (True if not ey else None)))
+        out.append((f"scope_send_anyvecmut|{en}", mk + "    std::thread::scope(|s| { s.spawn(move || { let _ = t.len(); }); });", (True if not es else None)))
     return out
 
 
